@@ -1147,6 +1147,11 @@ impl<T: Read + Seek> Read for BlocksToFileReader<'_, T> {
                                 self.move_to_next_block()?;
                                 continue;
                             }
+                            if length == 0 {
+                                // An empty block carries no data: returning
+                                // `Ok(0)` here would read as the end of the file
+                                continue;
+                            }
                             let count = self.src.by_ref().take(length).read(into)?;
                             let length_usize = usize::try_from(length).map_err(|_| {
                                 std::io::Error::new(
